@@ -341,13 +341,14 @@ pub struct CaseStats {
     pub refused_early: u64,
     pub all_matched: bool,
     pub group_of_two: bool,
+    pub resource_tasks: usize,
 }
 
 /// Run one world content through every order vector (and the real pools) of schedule `S`.
 pub fn check_case<S: Case>(spec: &WorldSpec, pools: &[rayon::ThreadPool], only_bits: Option<Option<u32>>) -> (CaseStats, Vec<Violation>) {
     let meta = S::meta();
     let n = meta.tasks.len();
-    let mut stats = CaseStats { executions: 0, overlapped_pairs: 0, early_starts: 0, refused_early: 0, all_matched: false, group_of_two: meta.groups.iter().any(|g| g.len() >= 2) };
+    let mut stats = CaseStats { executions: 0, overlapped_pairs: 0, early_starts: 0, refused_early: 0, all_matched: false, group_of_two: meta.groups.iter().any(|g| g.len() >= 2), resource_tasks: meta.tasks.iter().filter(|t| t.text.contains(" res ")).count() };
     let mut out = Vec::new();
     // reference: declared order, one by one
     let (mut wref, targets) = build_world(spec);
@@ -356,6 +357,10 @@ pub fn check_case<S: Case>(spec: &WorldSpec, pools: &[rayon::ThreadPool], only_b
     stats.all_matched = ref_states.iter().all(|s| s.matched > 0);
     let group_of = |t: usize| meta.groups.iter().position(|g| g.contains(&t)).unwrap();
     let compare = |states: &[TaskState], world: &(Vec<(String, [Option<u64>; 4])>, [u64; 3]), bits: Option<u32>, out: &mut Vec<Violation>| {
+        if world.1 != ref_world.1 {
+            out.push(Violation { props: &["C07", "C15"], oracle: "resource-state", msg: format!("{}: resources after run_schedule are {:?}; after running the tasks one by one in declared order they are {:?} (a write through a system resource view was lost or applied out of order)", meta.name, world.1, ref_world.1), bits });
+            return;
+        }
         for (i, (s, r)) in states.iter().zip(&ref_states).enumerate() {
             if s.runs != 1 {
                 out.push(Violation { props: &["C07"], oracle: "runs-once", msg: format!("task {i} of {} ran {} times", meta.name, s.runs), bits });
@@ -452,6 +457,7 @@ pub fn nontrivial(prop: &str, s: &CaseStats) -> bool {
         "C07" => s.overlapped_pairs > 0 && s.all_matched,
         "C08" => s.early_starts > 0 || s.refused_early > 0,
         "C12" => s.group_of_two,
+        "C15" => s.resource_tasks >= 2 && s.all_matched,
         _ => true,
     }
 }
